@@ -40,6 +40,13 @@ Calibration
 * No alarm on the unchanged tree at seeds 0, 1, 2, 7, 12345 (quick) and on a thorough run (90720 cases).
 * The number of blocks per array is capped at 64 (3-d arrays cut into single cells gave cases of several seconds that
   hit the per-case watchdog on a loaded machine: inconclusive, never a verdict).
+
+Sibling facet (vf/mon/siblings.py): every case is also built a second time with ONE result-relevant parameter changed
+(another depth or boundary of one axis (overlap: the two overlapped arrays; map_overlap: the results), another window).
+The two lazily built collections must not share output keys unless their stand-alone values are equal (label
+``<op>:<param>-not-in-name:siblings-share-keys``); for a seeded ~15 % of the cases both are also computed in one graph and
+compared with their stand-alone values (``<op>:<param>:differs-when-computed-with-sibling``).  Counters siblings_built /
+siblings_computed_together / siblings_with_different_values have floors.
 """
 from __future__ import annotations
 
